@@ -23,6 +23,9 @@ TARGETS = {
     "src/hydrodiy/stat/armodels.py": (["C17"], "stat"), "src/hydrodiy/gis/gutils.py": (["C15"], "gis"),
     "src/hydrodiy/data/qualitycontrol.py": (["X02"], "data"), "src/hydrodiy/data/signatures.py": (["X06"], "data"),
 }
+for _f in list(TARGETS):
+    if _f.endswith(".c"):
+        TARGETS[_f] = (TARGETS[_f][0] + ["C05"], TARGETS[_f][1])       # every hand-written kernel is also a C05 subject
 OPS = [(r"<=", "<"), (r">=", ">"), (r"(?<![<>=!-])<(?![<=])", "<="), (r"(?<![<>=!-])>(?![>=])", ">="), (r"==", "!="), (r"!=", "=="),
        (r"&&", "||"), (r"\|\|", "&&"), (r"(?<=[\w\)\]]) \+ (?=[\w\(])", " - "), (r"(?<=[\w\)\]]) - (?=[\w\(])", " + "),
        (r"(?<=[\w\)\]])\+(?=[\w\(])", "-"), (r"(?<=[\w\)\]])-(?=[\w\(])", "+"), (r"(?<=[\w\)\]])\*(?=[\w\(])", "/"),
